@@ -204,6 +204,8 @@ func TestTaskStatements(t *testing.T) {
 
 	_, err = pool.Exec(ctx, "select count(*) from shovel.task_updates where num = $1", 1)
 	eq(t, code(err), "42601")
+	ev = s.Log()[len(s.Log())-1] // rejected at Parse time, still logged
+	eq(t, []any{ev.Kind, ev.SQL, ev.Err}, []any{"query", "select count(*) from shovel.task_updates where num = $1", "42601"})
 	_, err = pool.Exec(ctx, "delete from nope where a = $1", 1)
 	eq(t, code(err), "42P01")
 	_, err = pool.Exec(ctx, "delete from shovel.task_updates where nope = $1", 1)
@@ -415,6 +417,50 @@ func TestMigrateDiffDDL(t *testing.T) {
 	noErr(t, pool.QueryRow(ctx, "select current_database()").Scan(&db))
 }
 
+func TestConcurrentConns(t *testing.T) {
+	s := New()
+	url, err := s.Start()
+	noErr(t, err)
+	pool, err := pgxpool.New(ctx, url)
+	noErr(t, err)
+	defer s.Close()
+	defer pool.Close()
+	noErr(t, pool.Ping(ctx)) // "-- ping": empty query, not logged
+	eq(t, len(s.Log()), 0)
+	errs := make(chan error, 8)
+	for g := 0; g < 8; g++ {
+		go func(ig string) {
+			errs <- func() error {
+				for n := uint64(1); n <= 20; n++ {
+					tx, err := pool.Begin(ctx)
+					if err != nil {
+						return err
+					}
+					var num uint64
+					err = tx.QueryRow(ctx, latestQ, "main", ig).Scan(&num, new([]byte))
+					if n > 1 && (err != nil || num != n-1) || n == 1 && err != pgx.ErrNoRows {
+						return fmt.Errorf("%s: latest=%d err=%v", ig, num, err)
+					}
+					if _, err = tx.Exec(ctx, updateQ, 1, "main", ig, n, h(1), 1, h(1), 0, 1, 1, time.Second); err != nil {
+						return err
+					}
+					if err = tx.Commit(ctx); err != nil {
+						return err
+					}
+				}
+				return nil
+			}()
+		}(fmt.Sprint("ig", g))
+	}
+	for g := 0; g < 8; g++ {
+		noErr(t, <-errs)
+	}
+	eq(t, len(s.Rows(tu)), 160)
+	for i, e := range s.Log() {
+		eq(t, e.Seq, i+1)
+	}
+}
+
 // Every single-token deletion / duplication / neighbour swap of the known
 // statements must be parsed, planned and executed without a panic.
 func TestMutationRobustness(t *testing.T) {
@@ -453,9 +499,6 @@ func TestMutationRobustness(t *testing.T) {
 						continue
 					}
 					accepted++
-					if testing.Verbose() && len(st.sql) < 400 {
-						t.Log(strings.Join(strings.Fields(st.sql), " "))
-					}
 					s.mu.Lock()
 					_, perr := c.exec(st, make([]Value, len(oids)), nil)
 					s.mu.Unlock()
@@ -651,10 +694,15 @@ func TestEndToEndTask(t *testing.T) {
 		Table: wpg.Table{Name: "transfers", Columns: []wpg.Column{{Name: "addr", Type: "bytea"}, {Name: "from", Type: "bytea"}, {Name: "to", Type: "bytea"}, {Name: "value", Type: "numeric"}}},
 	}}}
 	noErr(t, config.ValidateFix(&conf))
-	conn, err := pool.Acquire(ctx)
+	dbtx, err := pool.Begin(ctx) // as in cmd/shovel/main.go
 	noErr(t, err)
-	noErr(t, config.Migrate(ctx, conn, conf))
-	conn.Release()
+	_, err = dbtx.Exec(ctx, "select pg_advisory_xact_lock($1)", wpg.LockHash("main.migrate"))
+	noErr(t, err)
+	_, err = dbtx.Exec(ctx, shovel.Schema)
+	noErr(t, err)
+	noErr(t, config.Migrate(ctx, dbtx, conf))
+	eq(t, s.Columns("transfers"), []Column(nil)) // DDL is transactional
+	noErr(t, dbtx.Commit(ctx))
 	eq(t, s.Indexes("transfers"), []Index{{"u_transfers", true, []string{"ig_name", "src_name", "block_num", "tx_idx", "log_idx", "abi_idx"}}})
 
 	src := &fakeSource{}
